@@ -335,6 +335,117 @@ func renderRef(l []cmdT) string {
 	return b.String()
 }
 
+// oracleStep compares the implementation (after command cm returned class/pmsg)
+// with the reference TPM (which has executed cm as well; refOK is its verdict).
+// Returns "" or a description of the first disagreement.
+func oracleStep(t *tpm.TPM, ref *refTPM, cm cmdT, class int, pmsg string, refOK bool,
+	gobs []getObs, cl []cmdT, clOK bool, el []cmdT) string {
+	bad := ""
+	switch {
+	case class == 2:
+		bad = "command panicked: " + pmsg
+	case refOK && class != 0:
+		bad = "reference TPM executes the command, implementation returned an error: " + pmsg
+	case !refOK && class == 0:
+		bad = "command cannot be executed on the reference TPM, implementation returned no error"
+	}
+	if bad == "" {
+		for j, pa := range grid {
+			want, has := ref.banks[[2]int{pa[0], pa[1]}]
+			g := gobs[j]
+			switch {
+			case g.class == 2:
+				bad = fmt.Sprintf("PCRValues.Get(%d, 0x%x) panicked", pa[0], pa[1])
+			case has && g.class != 0:
+				bad = fmt.Sprintf("PCRValues.Get(%d, 0x%x) fails, reference value %x", pa[0], pa[1], want)
+			case has && !bytes.Equal(g.val, want):
+				bad = fmt.Sprintf("PCR %d bank 0x%x is %x, reference TPM has %x", pa[0], pa[1], g.val, want)
+			case !has && g.class == 0 && len(g.val) != 0:
+				bad = fmt.Sprintf("PCR %d bank 0x%x holds %x, the reference TPM has no such bank", pa[0], pa[1], g.val)
+			case !has && g.class == 0 && (pa[0] >= 2 || pa[1] >= 12) && ref.started:
+				bad = fmt.Sprintf("PCRValues.Get(%d, 0x%x) succeeds for a PCR/bank that does not exist", pa[0], pa[1])
+			case !ref.started && g.class == 0:
+				bad = fmt.Sprintf("PCRValues.Get(%d, 0x%x) succeeds on a TPM that was not started", pa[0], pa[1])
+			}
+			if bad != "" {
+				break
+			}
+		}
+	}
+	if bad == "" && cm.kind == kReset {
+		// a reset object is indistinguishable from a new one, SupportedAlgos included
+		want := tpm.NewTPM().SupportedAlgos
+		if fmt.Sprint(t.SupportedAlgos) != fmt.Sprint(want) {
+			bad = fmt.Sprintf("after Reset() SupportedAlgos is %v, NewTPM() has %v", t.SupportedAlgos, want)
+		}
+	}
+	if bad == "" {
+		switch {
+		case !clOK:
+			bad = "CommandLog holds an entry of an unknown command type"
+		case len(cl) != len(ref.log):
+			bad = fmt.Sprintf("CommandLog has %d entries, %d commands were executed since the last reset", len(cl), len(ref.log))
+		case len(el) != len(ref.ev):
+			bad = fmt.Sprintf("EventLog has %d entries, %d were added since the last reset", len(el), len(ref.ev))
+		}
+	}
+	if bad == "" {
+		for j := range cl {
+			if !sameCmd(cl[j], ref.log[j], false) {
+				bad = fmt.Sprintf("CommandLog[%d] is %s, executed was %s", j, cl[j], ref.log[j])
+				break
+			}
+		}
+	}
+	if bad == "" {
+		for j := range el {
+			if !sameCmd(el[j], ref.ev[j], true) {
+				bad = fmt.Sprintf("EventLog[%d] is %s, added was %s", j, el[j], ref.ev[j])
+				break
+			}
+		}
+	}
+	if bad == "" {
+		var got string
+		if p, _ := gal.Recover(func() { got = t.CommandLog.String() }); p {
+			bad = "CommandLog.String() panicked"
+		} else if want := renderRef(ref.log); got != want {
+			bad = fmt.Sprintf("rendered CommandLog differs: got %q want %q", got, want)
+		}
+	}
+	return bad
+}
+
+// a canonical prefix that leaves non-zero data in every recycled buffer
+func dirtyPrefix() []cmdT {
+	ff := bytes.Repeat([]byte{0xff}, 32)
+	h := []cmdT{{kind: kStartup, l: 0xA5}}
+	for _, pa := range [][2]int{{0, 4}, {0, 0xB}, {1, 4}, {1, 0xB}} {
+		h = append(h, cmdT{kind: kExtend, p: uint8(pa[0]), a: uint16(pa[1]), d: ff})
+	}
+	return append(h, cmdT{kind: kLogAdd, p: 1, a: 4, d: ff[:20], ty: 0xD, data: []byte{1, 2, 3}})
+}
+
+// closedRepro replays hist on a NEW object (oracle only): first failing step and what, or -1.
+func closedRepro(hist []cmdT) (int, string) {
+	t := tpm.NewTPM()
+	ref := &refTPM{}
+	ref.reset()
+	for i, cm := range hist {
+		class, pmsg := runCmd(t, cm)
+		refOK := ref.exec(cm)
+		gobs := make([]getObs, len(grid))
+		for j, pa := range grid {
+			gobs[j] = observeGet(t, pa[0], pa[1])
+		}
+		cl, clOK := projectCmdLog(t)
+		if bad := oracleStep(t, ref, cm, class, pmsg, refOK, gobs, cl, clOK, projectEvLog(t)); bad != "" {
+			return i, bad
+		}
+	}
+	return -1, ""
+}
+
 // ---------------------------------------------------------------- generator
 
 func pick[T any](c *gal.Ctx, xs ...T) T { return xs[c.Rng.Intn(len(xs))] }
@@ -563,84 +674,24 @@ func runCase(c *gal.Ctx, kind string, t *tpm.TPM, hist []cmdT, segEnd map[int]bo
 
 		// ---- oracle: compare with the reference TPM
 		checks++
-		bad := ""
-		switch {
-		case class == 2:
-			bad = "command panicked: " + pmsg
-		case refOK && class != 0:
-			bad = "reference TPM executes the command, implementation returned an error: " + pmsg
-		case !refOK && class == 0:
-			bad = "command cannot be executed on the reference TPM, implementation returned no error"
-		}
-		if bad == "" {
-			for j, pa := range grid {
-				want, has := ref.banks[[2]int{pa[0], pa[1]}]
-				g := gobs[j]
-				switch {
-				case g.class == 2:
-					bad = fmt.Sprintf("PCRValues.Get(%d, 0x%x) panicked", pa[0], pa[1])
-				case has && g.class != 0:
-					bad = fmt.Sprintf("PCRValues.Get(%d, 0x%x) fails, reference value %x", pa[0], pa[1], want)
-				case has && !bytes.Equal(g.val, want):
-					bad = fmt.Sprintf("PCR %d bank 0x%x is %x, reference TPM has %x", pa[0], pa[1], g.val, want)
-				case !has && g.class == 0 && len(g.val) != 0:
-					bad = fmt.Sprintf("PCR %d bank 0x%x holds %x, the reference TPM has no such bank", pa[0], pa[1], g.val)
-				case !has && g.class == 0 && (pa[0] >= 2 || pa[1] >= 12) && ref.started:
-					bad = fmt.Sprintf("PCRValues.Get(%d, 0x%x) succeeds for a PCR/bank that does not exist", pa[0], pa[1])
-				case !ref.started && g.class == 0:
-					bad = fmt.Sprintf("PCRValues.Get(%d, 0x%x) succeeds on a TPM that was not started", pa[0], pa[1])
-				}
-				if bad != "" {
-					break
-				}
-			}
-		}
-		if bad == "" && cm.kind == kReset {
-			// a reset object is indistinguishable from a new one, SupportedAlgos included
-			want := tpm.NewTPM().SupportedAlgos
-			if fmt.Sprint(t.SupportedAlgos) != fmt.Sprint(want) {
-				bad = fmt.Sprintf("after Reset() SupportedAlgos is %v, NewTPM() has %v", t.SupportedAlgos, want)
-			}
-		}
-		if bad == "" {
-			switch {
-			case !clOK:
-				bad = "CommandLog holds an entry of an unknown command type"
-			case len(cl) != len(ref.log):
-				bad = fmt.Sprintf("CommandLog has %d entries, %d commands were executed since the last reset", len(cl), len(ref.log))
-			case len(el) != len(ref.ev):
-				bad = fmt.Sprintf("EventLog has %d entries, %d were added since the last reset", len(el), len(ref.ev))
-			}
-		}
-		if bad == "" {
-			for j := range cl {
-				if !sameCmd(cl[j], ref.log[j], false) {
-					bad = fmt.Sprintf("CommandLog[%d] is %s, executed was %s", j, cl[j], ref.log[j])
-					break
-				}
-			}
-		}
-		if bad == "" {
-			for j := range el {
-				if !sameCmd(el[j], ref.ev[j], true) {
-					bad = fmt.Sprintf("EventLog[%d] is %s, added was %s", j, el[j], ref.ev[j])
-					break
-				}
-			}
-		}
-		if bad == "" {
-			var got string
-			if p, _ := gal.Recover(func() { got = t.CommandLog.String() }); p {
-				bad = "CommandLog.String() panicked"
-			} else if want := renderRef(ref.log); got != want {
-				bad = fmt.Sprintf("rendered CommandLog differs: got %q want %q", got, want)
-			}
-		}
+		bad := oracleStep(t, ref, cm, class, pmsg, refOK, gobs, cl, clOK, el)
 		if bad != "" && len(fails) == 0 {
-			fails = append(fails, fail{
-				what: fmt.Sprintf("after command #%d %s: %s", i, cm, bad),
-				input: map[string]interface{}{"object": kind, "history": histStrings(hist[:i+1]), "failing_step": i},
-			})
+			f := fail{
+				what:  fmt.Sprintf("after command #%d %s: %s", i, cm, bad),
+				input: map[string]interface{}{"object": "new TPM", "history": histStrings(hist[:i+1]), "failing_step": i},
+			}
+			if strings.HasPrefix(kind, "shared-object") {
+				// the object carries state of earlier cases: look for a closed history on a new object
+				closed := append(dirtyPrefix(), hist[:i+1]...)
+				if k, what := closedRepro(closed); k >= 0 {
+					f.what = fmt.Sprintf("after command #%d %s: %s", k, closed[k], what)
+					f.input = map[string]interface{}{"object": "new TPM", "history": histStrings(closed[:k+1]), "failing_step": k}
+				} else {
+					f.input = map[string]interface{}{"object": "TPM object reused from the earlier cases of this run (replay by seed; the case index identifies the history)",
+						"history": histStrings(hist[:i+1]), "failing_step": i}
+				}
+			}
+			fails = append(fails, f)
 		}
 	}
 	lit := "(CHist " + gal.List(ref.table) + " " + gal.List(steps) + ")"
